@@ -455,9 +455,13 @@ func report(r *ev.Report, c Chain, reqs []int, key, msg string) {
 }
 
 func explore(r *ev.Report, c Chain, curFile string) {
-	if c.cyclic() && curFile != "" {
+	if (c.cyclic() || len(c.Pages) > 8) && curFile != "" {
 		par.BeginCase(curFile, session{Chain: c})
 		defer par.EndCase()
+	}
+	if len(c.Pages) > 8 {
+		exploreLong(r, c)
+		return
 	}
 	sizes := sizesQuick
 	// E2: breadth-first over reference states (items delivered so far, ended)
@@ -514,10 +518,61 @@ func explore(r *ev.Report, c Chain, curFile string) {
 	r.Eval(1)
 }
 
+// longChains: the size phase. Chains of 33, 40 and 70 pages (more than any fixed number of
+// loads that could be in flight at once), dense (one item per page) and sparse (three empty
+// pages between items, which the statement still calls a finite collection).
+func longChains() []Chain {
+	var out []Chain
+	for _, kind := range []string{"Collection", "OrderedCollection"} {
+		for _, n := range []int{33, 40, 70} {
+			for _, sparse := range []bool{false, true} {
+				for _, remote := range []bool{false, true} {
+					for _, tail := range []string{"absent", "404", "self"} {
+						c := Chain{Kind: kind, RootItems: 1, Tail: tail}
+						for k := 0; k < n; k++ {
+							size := 1
+							if sparse && k%4 != 3 {
+								size = 0
+							}
+							c.Pages = append(c.Pages, Page{Size: size, Remote: remote})
+						}
+						out = append(out, c)
+					}
+				}
+			}
+		}
+	}
+	return out
+}
+
+// exploreLong: the whole chain in one request, in requests of 7, and one item at a time.
+func exploreLong(r *ev.Report, c Chain) {
+	n := len(c.Pages)
+	var sevens, ones []int
+	for k := 0; k*7 < n+14; k++ {
+		sevens = append(sevens, 7)
+	}
+	for k := 0; k < 12; k++ {
+		ones = append(ones, 1)
+	}
+	for _, reqs := range [][]int{{n + 8}, {n + 8, 7}, {1, n + 8}, {33, 33, 33}, {32, 1, 1, 40}, sevens, ones} {
+		if c.cyclic() {
+			reqs = reqs[:1] // a cycle never ends: one request is enough to walk it once around
+		}
+		key, msg, _, _ := runSession(c, reqs)
+		r.Transitions += int64(len(reqs))
+		if key != "" {
+			report(r, c, reqs, "long-chain:"+key, msg)
+		}
+	}
+	r.States += int64(n)
+	r.Eval(1)
+}
+
 func main() {
 	r := ev.New("C10", "model_checking",
 		"page chains: kind {Collection, OrderedCollection} x root items {absent,0,1,2} x page-size vectors (<=3 pages of size 0..2 quick, <=4 pages of size 0..3 thorough) x placement {embedded, remote, alternating, reference stub {id,type}, reference stub {id}} x "+
-			"tail {absent, null, self-cycle, cycle to each earlier page, 404, wrong type, non-JSON} (+ single-value item lists, + pages that also carry first/last/prev as real servers send them); per chain an explicit-state search over request sequences with sizes {0,1,2,3,4,7} "+
+			"tail {absent, null, self-cycle, cycle to each earlier page, 404, wrong type, non-JSON} (+ single-value item lists, + pages that also carry first/last/prev as real servers send them); + a size phase of chains of 33, 40 and 70 pages (dense and with three empty pages between items, embedded and remote, ending / failing / cyclic) walked in one request, in sevens and one at a time; per chain an explicit-state search over request sequences with sizes {0,1,2,3,4,7} "+
 			"(state = items delivered so far), each transition replayed on a fresh Collection through the continuation protocol, plus all unmerged request pairs and first requests with start offsets 1,2,3,5; distinct_nontrivial = chains with at least two pages or a cycle")
 	debug.SetMaxStack(64 << 20)
 	if *ev.FlagReplay != "" {
@@ -535,6 +590,7 @@ func main() {
 		r.Finish()
 	}
 	all := chains(r.Thorough())
+	all = append(all, longChains()...)
 	if i, n, ok := par.Shard(); ok {
 		cur := *ev.FlagOut + ".cur"
 		for k := i; k < len(all); k += n {
@@ -555,8 +611,12 @@ func main() {
 	for _, cur := range crashed {
 		var s session
 		if b, err := os.ReadFile(cur); err == nil && json.Unmarshal(b, &s) == nil {
-			s.Requests = []int{7}
-			r.Violation("nontermination-or-crash:cyclic", s)
+			s.Requests = []int{len(s.Chain.Pages) + 8}
+			if s.Chain.cyclic() {
+				r.Violation("nontermination-or-crash:cyclic", s)
+			} else {
+				r.Violation("nontermination-or-crash:long-chain", s)
+			}
 		} else {
 			ev.Fatal("a worker died outside a cyclic chain: %s", filepath.Base(cur))
 		}
